@@ -170,7 +170,17 @@ func sparseTables(r *vkit.R, g *vkit.Rand) {
 	}()
 	var names []string
 	perShard := map[int]int{}
-	for k := 0; len(names) < r.N(40, 200) || len(perShard) < b.N; k++ {
+	// every shard gets at least 6 upstream names, so that whichever leader is made unreachable (and whichever shard is left
+	// without a leader) has calls made for it in every run - not left to the draw
+	enough := func() bool {
+		for s := 0; s < b.N; s++ {
+			if perShard[s] < 6 {
+				return false
+			}
+		}
+		return true
+	}
+	for k := 0; len(names) < r.N(40, 200) || !enough(); k++ {
 		n := genHTTPName(g)
 		names = append(names, n)
 		perShard[refShard(n, b.N)]++
